@@ -1175,10 +1175,222 @@ def gen_C12(rng, tier, dist):
     return out
 
 
+def gen_C17(rng, tier, dist):
+    """every history appears in several variants that must all give identical bytes:
+    sink types, builder alias path, convenience vs explicit timestamps, audio None vs no audio"""
+    out = []
+    n = 250 if tier == "quick" else 15000
+    g = 0
+    for _ in range(n):
+        cfg, ops, info = gen_history(rng, dist, rejects=0.05, finish=rng.choice(["fin", "fins", "finish", "finishs", "flush"]))
+        g += 1
+        for variant in ["", "sinkty=vec", "sinkty=cursor", "sinkty=file", "path=set"]:
+            out.append(pcase(cfg + " grp=%d" % g + (" " + variant if variant else ""), ops))
+        dist["variants"] += 5
+    # convenience vs explicit: encode_video/encode_audio with accumulated f64 time == write at that time
+    for _ in range(80 if tier == "quick" else 5000):
+        codec = rng.choice(VCODECS)
+        audio = rng.choice(["none", "aac-lc", "opus"])
+        rate = rng.choice([48000, 44100]) if audio != "opus" else 48000
+        g += 1
+        ms = rng.choice([33, 40, 1, 1001, 16])
+        smp = rng.choice([960, 1024])
+        nv = rng.randrange(1, 8)
+        na = rng.randrange(0, 6) if audio != "none" else 0
+        frames = [key_frame(rng, codec)] + [delta_frame(rng, codec) if codec == "av1" or rng.random() < 0.8 else key_frame(rng, codec) for _ in range(nv - 1)]
+        aframes = [audio_frame(rng, audio) for _ in range(na)]
+        ev = ["ev %s %d" % (hx(f), ms) for f in frames] + ["ea %s %d" % (hx(f), smp) for f in aframes] + ["fins"]
+        t = 0.0
+        wv = []
+        for i, f in enumerate(frames):
+            key = (i == 0) if codec == "av1" else is_key_bytes(codec, f)
+            wv.append("wv %s %s %d" % (f64bits(t), hx(f), 1 if key else 0))
+            t += ms / 1000.0
+        ta = 0.0
+        for f in aframes:
+            wv.append("wa %s %s" % (f64bits(ta), hx(f)))
+            ta += smp / float(rate)
+        wv.append("fins")
+        c = cfg_str(codec=codec, audio=audio, rate=rate, fast=rng.randrange(2)) + " grp=%d" % g
+        out.append(pcase(c, ev))
+        out.append(pcase(c, wv))
+        dist["convenience_pairs"] += 1
+    # audio None vs no audio at all
+    for _ in range(20 if tier == "quick" else 500):
+        cfg, ops, info = gen_history(rng, dist, audio="none")
+        g += 1
+        out.append(pcase(cfg + " grp=%d" % g, ops))
+        out.append(pcase(cfg.replace("audio=none", "audio=cnone:48000:2") + " grp=%d" % g, ops))
+    # fragmented muxer: same op sequence, direct vs builder construction does not matter here; just replay
+    for _ in range(100 if tier == "quick" else 5000):
+        out.append(fcase(frag_cfg(rng, dist), frag_ops(rng, dist, maxlen=25)))
+    return out
+
+
+def is_key_bytes(codec, f):
+    """auto keyframe detection of encode_video (spec level)"""
+    if codec == "h264":
+        return any((u[0] & 0x1F) == 5 for u in split_annexb(f) if u)
+    if codec == "h265":
+        return any(19 <= ((u[0] >> 1) & 0x3F) <= 21 for u in split_annexb(f) if u)
+    if codec == "vp9":
+        return len(f) >= 4 and f[:3] == bytes([0x49, 0x83, 0x42]) and ((f[3] >> 5) & 1) == 0 and ((f[3] >> 4) & 1) == 0
+    return False
+
+
+def split_annexb(d):
+    out = []
+    i = 0
+    n = len(d)
+    def sc(i):
+        if d[i:i + 4] == b"\x00\x00\x00\x01": return 4
+        if d[i:i + 3] == b"\x00\x00\x01": return 3
+        return 0
+    pos = None
+    while i < n:
+        l = sc(i)
+        if l:
+            if pos is not None:
+                out.append(d[pos:i])
+            pos = i + l
+            i += l
+        else:
+            i += 1
+    if pos is not None:
+        out.append(d[pos:])
+    return out
+
+
+def hexfile(data, rng, style=None):
+    """text of an input file holding `data` as hex"""
+    style = style or rng.choice(["plain", "plain", "upper", "spaced", "newline", "crlf"])
+    h = bytes(data).hex()
+    if style == "upper":
+        h = h.upper()
+    elif style == "spaced":
+        h = " ".join(h[i:i + 2] for i in range(0, len(h), 2))
+    elif style == "newline":
+        h = "\n".join(h[i:i + 32] for i in range(0, len(h), 32)) + "\n"
+    elif style == "crlf":
+        h = "\r\n".join(h[i:i + 16] for i in range(0, len(h), 16)) + "\r\n\t "
+    return h.encode()
+
+
+def gen_C20(rng, tier, dist):
+    out = []
+    g = 0
+    n = 120 if tier == "quick" else 4000
+    vnames = {"h264": ["h264", "H264", "h.264", "avc", "AVC"], "h265": ["h265", "h.265", "hevc", "HEVC"], "av1": ["av1", "AV1"], "vp9": ["vp9", "VP9"]}
+    anames = {"aac-lc": ["aac", "aac-lc", "AAC"], "aac-main": ["aac-main"], "aac-ssr": ["aac-ssr"], "aac-ltp": ["aac-ltp"], "aac-he": ["aac-he"],
+              "aac-hev2": ["aac-hev2"], "opus": ["opus", "Opus"]}
+    for _ in range(n):
+        g += 1
+        codec = rng.choice(VCODECS)
+        audio = rng.choice(["none", "none"] + AUDIOS[1:])
+        w, h = rng.choice([(640, 480), (320, 240), (4096, 2160), (1920, 1080)])
+        fps = rng.choice(["30", "29.97", "24", "120", "0.5", "60"])
+        rate = rng.choice([48000, 44100, 8000, 192000])
+        ch = rng.choice([1, 2, 6, 8])
+        if audio == "opus":
+            rate = 48000
+        key = key_frame(rng, codec)
+        toks = []
+        for fl in ["--verbose", "--json", "--no-progress"]:
+            if fl == "--no-progress" or rng.random() < 0.3:
+                toks.append(fl)
+        toks += [rng.choice(["mux", "m"]), "--video", "@v", "--output", "@out", "--width", str(w), "--height", str(h), "--fps", fps]
+        use_default_codec = codec == "h264" and rng.random() < 0.5
+        if not use_default_codec:
+            toks += ["--video-codec", rng.choice(vnames[codec])]
+        files = "v=%s" % hexfile(key, rng).hex()
+        title = None; lang = None
+        if rng.random() < 0.4:
+            title = rng.choice(["T", "My Title", "Tïtle é中", "x" * 200]); toks += ["--title", "x:" + title.encode().hex()]
+        if rng.random() < 0.4:
+            lang = rng.choice(["eng", "und", "fra", "zz", "ENG", "e"]); toks += ["--language", "x:" + lang.encode().hex()]
+        aframe = None
+        if audio != "none":
+            aframe = audio_frame(rng, audio)
+            toks += ["--audio", "@a", "--sample-rate", str(rate), "--channels", str(ch)]
+            if not (audio == "aac-lc" and rng.random() < 0.5):
+                toks += ["--audio-codec", rng.choice(anames[audio])]
+            files += " a=%s" % hexfile(aframe, rng).hex()
+        # invalid variations
+        r = rng.random()
+        bad = None
+        if r < 0.35:
+            bad = rng.choice(["odd", "nonhex", "empty", "binary", "missing", "nodims", "smalldims", "bigdims", "fps0", "novideo", "garbage_frame",
+                              "noaudio_params", "bad_audio", "fragmented", "dry", "dry_bad", "bigfps", "ws_only"])
+            def setv(content):
+                nonlocal files
+                files = " ".join(["v=%s" % (content.hex() if content is not None and len(content) else ("~" if content is None else "-"))] + [f for f in files.split() if not f.startswith("v=")])
+            if bad == "odd": setv(hexfile(key, rng, "plain")[:-1])
+            elif bad == "nonhex": setv(b"zz" + hexfile(key, rng, "plain"))
+            elif bad == "empty": setv(b"")
+            elif bad == "ws_only": setv(b" \n\t ")
+            elif bad == "binary": setv(bytes([0xFF, 0xFE, 0x00, 0x80]) + key)
+            elif bad == "missing": setv(None)
+            elif bad == "garbage_frame": setv(hexfile(bytes(rng.randrange(1, 256) for _ in range(12)), rng))
+            elif bad == "nodims": toks = [t for i, t in enumerate(toks) if not (t == "--width" or (i > 0 and toks[i - 1] == "--width"))]
+            elif bad == "smalldims": toks[toks.index("--width") + 1] = "319"
+            elif bad == "bigdims": toks[toks.index("--height") + 1] = "2161"
+            elif bad == "fps0": toks[toks.index("--fps") + 1] = "0"
+            elif bad == "bigfps": toks[toks.index("--fps") + 1] = "120.5"
+            elif bad == "fragmented": toks.append("--fragmented")
+            elif bad == "dry": toks.append("--dry-run")
+            elif bad == "dry_bad": toks.append("--dry-run"); setv(b"zz")
+            elif bad == "novideo":
+                k = toks.index("--video"); del toks[k:k + 2]
+                if audio == "none":
+                    bad = "noinputs"
+            elif bad == "noaudio_params" and audio != "none":
+                k = toks.index("--channels"); del toks[k:k + 2]
+            elif bad == "bad_audio" and audio != "none":
+                files = " ".join([f for f in files.split() if not f.startswith("a=")] + ["a=%s" % hexfile(bytes([0, 1, 2, 3]), rng).hex()])
+        dist["mux_" + (bad or "valid")] += 1
+        out.append("L %s | %s g=%d" % (" ".join(toks), files, g))
+        if bad is None:
+            # the library call sequence for the same single-frame input and settings
+            md = dict(md=1, title=title.encode() if title is not None else None, ctime=None, lang=lang.encode() if lang is not None else None) if (title is not None or lang is not None) else dict(md=0)
+            ops = ["wv %s %s 1" % (f64bits(0.0), hx(key))] + (["wa %s %s" % (f64bits(0.0), hx(aframe))] if aframe is not None else []) + ["finish"]
+            out.append(pcase(cfg_str(codec=codec, w=w, h=h, fps=float(fps), audio=audio, rate=rate, ch=ch, fast=1, **md) + " grp=%d" % g + (" path=set" if False else ""), ops))
+    # validate
+    for _ in range(60 if tier == "quick" else 2000):
+        toks = ["--json"] if rng.random() < 0.7 else []
+        toks += [rng.choice(["validate", "v"])]
+        files = []
+        for nm, flag in (("v", "--video"), ("a", "--audio")):
+            if rng.random() < 0.7:
+                toks += [flag, "@" + nm]
+                k = rng.choice(["valid", "valid", "odd", "nonhex", "empty", "binary", "missing", "ws", "upper", "plus"])
+                data = bytes(rng.randrange(256) for _ in range(rng.randrange(1, 20)))
+                c = {"valid": hexfile(data, rng), "odd": hexfile(data, rng, "plain")[:-1], "nonhex": b"0g" + hexfile(data, rng, "plain"), "empty": b"",
+                     "binary": bytes([0xC3, 0x28, 0xFF]), "missing": None, "ws": b"  \n", "upper": hexfile(data, rng, "upper"), "plus": b"+f"}[k]
+                files.append("%s=%s" % (nm, "~" if c is None else ("-" if len(c) == 0 else c.hex())))
+                dist["validate_" + k] += 1
+        if rng.random() < 0.2:
+            toks += ["--output", "@rep"]
+        out.append("L %s | %s" % (" ".join(toks), " ".join(files)))
+    # info on generated MP4s, truncated ones, random bytes, size-0 / size<8 boxes
+    K = h264_key(random.Random(9), extra=False)
+    for _ in range(60 if tier == "quick" else 2000):
+        k = rng.choice(["mp4", "mp4", "truncated", "random", "size0", "small", "tiny", "missing", "huge_size"])
+        boxes = [(b"ftyp", b"isom" + bytes(12)), (b"free", bytes(rng.randrange(0, 9))), (b"mdat", bytes(rng.randrange(0, 40))), (b"moov", bytes(rng.randrange(0, 30)))]
+        rng.shuffle(boxes)
+        mp4 = b"".join(struct.pack(">I", 8 + len(p)) + t + p for t, p in boxes[:rng.randrange(1, 5)])
+        c = {"mp4": mp4, "truncated": mp4[:rng.randrange(0, len(mp4))], "random": bytes(rng.randrange(256) for _ in range(rng.randrange(0, 60))),
+             "size0": mp4 + struct.pack(">I", 0) + b"free" + bytes(5), "small": mp4 + struct.pack(">I", rng.randrange(1, 8)) + b"abcd" + bytes(9),
+             "tiny": bytes(rng.randrange(0, 8)), "missing": None, "huge_size": mp4 + struct.pack(">I", 2 ** 32 - 1) + b"mdat"}[k]
+        toks = (["--json"] if rng.random() < 0.3 else []) + [rng.choice(["info", "i"]), "@i"]
+        out.append("L %s | i=%s" % (" ".join(toks), "~" if c is None else ("-" if len(c) == 0 else c.hex())))
+        dist["info_" + k] += 1
+    return out
+
+
 GENERATORS = {"C14": gen_C14, "C01": gen_C01, "C02": gen_C02, "C03": gen_C03, "C15": gen_C15, "C06": gen_C06,
               "C09": gen_C09, "C08": gen_C08, "C18": gen_C18, "C04": gen_C04, "C05": gen_C05,
               "C10": gen_C10, "C11": gen_C11, "C13": gen_C13,
-              "C07": gen_C07, "C19": gen_C19, "C16": gen_C16, "C12": gen_C12}
+              "C07": gen_C07, "C19": gen_C19, "C16": gen_C16, "C12": gen_C12, "C17": gen_C17, "C20": gen_C20}
 
 RULES = {
     "C14": "exhaustive byte strings up to a length bound over {00,01,02,03,67,FF} through both conversion entry points; "
